@@ -1621,7 +1621,7 @@ impl Archive {
 
         // Calculate encryption key if needed
         let key = if file_info.is_encrypted() {
-            let base_key = hash_string(name, hash_type::FILE_KEY);
+            let base_key = crate::crypto::file_key(name);
             if file_info.has_fix_key() {
                 // Apply FIX_KEY modification
                 let file_pos = (file_info.file_pos - self.archive_offset) as u32;
@@ -1796,7 +1796,7 @@ impl Archive {
 
         // Calculate encryption key if needed
         let key = if file_info.is_encrypted() {
-            let base_key = hash_string(name, hash_type::FILE_KEY);
+            let base_key = crate::crypto::file_key(name);
             if file_info.has_fix_key() {
                 // Apply FIX_KEY modification
                 let file_pos = (file_info.file_pos - self.archive_offset) as u32;
@@ -2078,7 +2078,7 @@ impl Archive {
         // we'll use a default key based on the table index
         let key = if file_info.is_encrypted() {
             // Use a generic key calculation for anonymous files
-            hash_string(&file_info.filename, hash_type::FILE_KEY)
+            crate::crypto::file_key(&file_info.filename)
         } else {
             0
         };
